@@ -157,16 +157,14 @@ def deserialize (dtype : Dtype) (trail : List Nat) (rows : List (List Val)) (dat
     | [w] => if w = 0 then .error (.other "IndexError") else rows.mapM (decodeValuesRow dtype data)
     | _ => .error (.unmodelled "values table is not 1-D or 2-D")
 
-def loadPropToMemory (cast : Dtype → Val → Val) (zp : ZarrProp) (mask : Option (List Bool))
-    (pm : PropMeta) : Res MemProp := do
-  let indices ← maskToIndices mask zp.values.rows.length
+/-- the second half of `_load_prop_to_memory`: cast to the metadata dtype (`uint64` for the table of
+a var-length property), then deserialise against the data array or return the arrays as they are.
+`rows`/`missing` are the (subset of the) `values`/`missing` arrays that were loaded; the flat
+`data` array is always loaded in full, whatever the mask. -/
+def assemble (cast : Dtype → Val → Val) (zp : ZarrProp) (pm : PropMeta) (rows : List (List Val))
+    (missing : Option (List Bool)) : Res MemProp :=
   let valuesDtype := if pm.varlength then Dtype.u64 else pm.dtype
-  let rows ← loadZarrSubset zp.values.rows indices
   let values := rows.map (·.map (cast valuesDtype))
-  let missing ← match zp.missing with
-    | some m => (loadZarrSubset m indices).map some
-    | none => pure none
-  -- the flat data array is loaded in full, whatever the mask
   let data := zp.data.map (·.map (cast pm.dtype))
   if pm.varlength then
     match data with
@@ -176,6 +174,15 @@ def loadPropToMemory (cast : Dtype → Val → Val) (zp : ZarrProp) (mask : Opti
       pure { values := .object elems, missing := missing }
   else
     pure { values := .dense pm.dtype zp.values.trail values, missing := missing }
+
+def loadPropToMemory (cast : Dtype → Val → Val) (zp : ZarrProp) (mask : Option (List Bool))
+    (pm : PropMeta) : Res MemProp := do
+  let indices ← maskToIndices mask zp.values.rows.length
+  let rows ← loadZarrSubset zp.values.rows indices
+  let missing ← match zp.missing with
+    | some m => (loadZarrSubset m indices).map some
+    | none => pure none
+  assemble cast zp pm rows missing
 
 /-! ## the reader -/
 
